@@ -5,6 +5,8 @@ pub mod erpki;
 pub mod escen;
 pub mod erun;
 pub mod hist;
+pub mod fmtx;
+pub mod parsers;
 pub mod c01;
 pub mod c02;
 pub mod c03;
